@@ -57,3 +57,14 @@ func vhSourceFiles(n int) {
 }
 
 func vh_C13_source_files_Q() { vhSourceFiles(3) }
+
+// VhNewFacade builds an empty facade (no globbing, no package loading) for harnesses of other packages.
+func VhNewFacade() *PackagesFacade {
+	return &PackagesFacade{
+		fileSet:        token.NewFileSet(),
+		files:          make(map[string]*ast.File),
+		fileToPackage:  make(map[string]*packages.Package),
+		packagesCache:  make(map[string]*packages.Package),
+		packageToFiles: map[string][]*ast.File{},
+	}
+}
